@@ -31,3 +31,4 @@ MUTANTS.append(dict(name="content-type-param-memo-keyed-by-content-type-only", f
 MUTANTS.append(dict(name="handler-sorts-ir-responses-in-place", file='visit/endpoint/generators/response_handler_generator.py', expect="R13.8", old='        other_responses = [r for r in op.responses if not (processed_primary_success and r == primary_success_ir)]\n', new='        declared_responses = op.responses\n        declared_responses.sort(key=lambda r: (not r.status_code.isdigit(), r.status_code))\n        other_responses = [r for r in declared_responses if not (processed_primary_success and r == primary_success_ir)]\n'))
 MUTANTS.append(dict(name='protocol-nature-reads-a-counter', file='visit/endpoint/endpoint_visitor.py', expect='R13.5', old='                            is_async_generator = "AsyncIterator" in sig_stripped\n', new='                            is_async_generator = "AsyncIterator" in sig_stripped and i > 0\n'))
 MUTANTS.append(dict(name='path-parameters-marked-required-while-rendering', file='visit/endpoint/processors/parameter_processor.py', expect='R13.8', old='        for param in op.parameters:\n', new='        for param in op.parameters:\n            if param.param_in == "path" and not param.required:\n                # OpenAPI: path parameters are always required. Tolerate specs that leave the flag out, so that the\n                # signature, the URL template and the synthesised path variables below agree\n                param.required = True\n'))
+MUTANTS.append(dict(name='range-primary-arm-removed', file='visit/endpoint/generators/response_handler_generator.py', expect='R13.10', old='        # A primary success response declared as the range \'2XX\' is matched after the exact codes\n        if primary_success_ir and not processed_primary_success and primary_success_ir.status_code.upper() == "2XX":\n            writer.write_line("case _ if 200 <= response.status_code < 300:")\n            writer.indent()\n            if strategy.return_type == "None":\n                writer.write_line("return None")\n            else:\n                self._write_strategy_based_return(writer, strategy, context)\n            writer.dedent()\n\n', new=''))
